@@ -55,6 +55,10 @@ def build(prop: str, rng: random.Random, seed: int, root: str):
     prob = P.draw_problem(rng, need_anchor=cls in ("RVI", "PER"))
     never = rng.random() < 0.25
     sol = P.draw_solver(rng, cls, prob["n"], never_converge=never, shuffle=None)
+    if not never and rng.random() < 0.35:
+        # loose tolerances: the stop rule fires within the first sweeps (for the periodic solver:
+        # a measure that would be small before a full period has elapsed)
+        sol["kw"]["epsilon"] = float(f"{P.loguniform(rng, 0.5, 200.0):.3g}")
     world = {"problem": prob, "solver": sol, "ckpt": {"f": 0, "m": 1, "async": True}}
     ncalls = rng.choice([1, 2, 2, 3, 3, 4])
     ks = [rng.randint(1, 7 if cls != "PI" else 3) for _ in range(ncalls)]
@@ -89,7 +93,7 @@ def evaluate(prop: str, plan: dict, run, ctl):
     calls = [c for c in h["calls"] if "it1" in c]
     early = [c for c in calls[:-1] if c["converged"]]
     if calls and not early and len(calls) == len(plan["lifetimes"][0]["ops"]):
-        if Q.is_shuffled(world) is False or True:
+        if True:
             for it, vd, pd in h["sweeps"]:
                 if it in ctl.sweeps and ctl.sweeps[it] != (vd, pd):
                     V.bad(f"{prop}:split_calls_diverge", f"state after sweep {it} of solve({'+'.join(str(c['k']) for c in calls)}) differs from solve({plan['Tmax']})")
